@@ -9,13 +9,7 @@ from . import parsers as P
 
 TECHNIQUE = "static analysis: as C09 (grammar IR, key agreement, number bases, classification order, numbering) plus affine/exponent checks of the index scale, alias prefixes, inclusive register ranges; (thorough) language inclusion in the grammar's regular envelope"
 EXPLANATION = (
-    "R1-R6 and T as for C09 on ParserAArch64 (classification order: comment, label, directive, instruction - the "
-    "directive attempt must precede the instruction attempt because '.byte 100' also parses as an instruction). "
-    "R8: the memory scale is 2 ** (shift amount of the index register) under the shift/extend operations allowed "
-    "there, default 1. R9: sp/zr as base or index get prefix x; a bare sp operand becomes x + sp; '!' sets "
-    "pre_indexed; a post-index immediate is stored converted. R10: register ranges expand inclusively "
-    "(int(end) + 1) from the first to the last register, lists keep their order, a trailing index is propagated "
-    "to every member."
+    "R1-R6 and T as for C09 on ParserAArch64 (classification order: comment, label, directive, instruction - the directive attempt must precede the instruction attempt because '.byte 100' also parses as an instruction). R8: the memory scale is 2 ** (shift amount of the index register) under the shift/extend operations allowed there, default 1. R9: sp/zr as base or index get prefix x; a bare sp operand becomes x + sp; '!' sets pre_indexed; a post-index immediate is stored converted. R10: register ranges expand inclusively (int(end) + 1) from the first to the last register, lists keep their order, a trailing index is propagated to every member. R12: a field the parser itself fills with numbers (the element index of an expanded list/range member is int(...)) is never presence-tested by truthiness (`x.get('index') or None`, `v if v else None`): 0 is a value."
 )
 NOT_DECIDED = (
     "That the recovered operand values equal the written ones for every input (pyparsing's run time) and "
@@ -44,6 +38,8 @@ def run(ctx):
     reads, op_tree = P.r4_keys(ctx, CLS, gr)
     n = P.r5_conversions(ctx, CLS, gr, reads, {"name", "index", "exponent", "lanes"})
     ctx.floor("R5", "int() conversions of grammar tokens", n, 5)
+    nf = P.r7_presence(ctx, CLS, "R12")
+    ctx.floor("R12", "fields the parser fills with numbers", nf, 1)
     # ---- R8 scale
     ctx.rule("R8", "memory scale = 2 ** shift amount under the allowed shift operations; default 1")
     m = ctx.func(CLS + ".process_memory_address")
